@@ -116,6 +116,27 @@ func sameContent(a, b infoM) bool {
 	return true
 }
 
+// trimPanic keeps the panic value and the source positions of the library
+// frames.  The raw stack contains goroutine numbers and argument addresses,
+// which differ from run to run; rapid only shrinks failures whose message is
+// reproducible.
+func trimPanic(p string) string {
+	lines := strings.Split(p, "\n")
+	out := lines[0]
+	for _, l := range lines[1:] {
+		l = strings.TrimSpace(l)
+		if !strings.Contains(l, ".go:") || strings.Contains(l, "/harness/") ||
+			strings.Contains(l, "/src/runtime/") || strings.Contains(l, "/src/testing/") || strings.Contains(l, "rapid@") {
+			continue
+		}
+		if i := strings.Index(l, " +0x"); i >= 0 {
+			l = l[:i]
+		}
+		out += "\n\tat " + l
+	}
+	return out
+}
+
 // three runs the entry points the statement names, each on a fresh value:
 // Hash, AppendHash with a nil destination, AppendHash with an empty destination
 // that has capacity.  pre, if non-nil, is a value nobody has hashed yet (saves
@@ -149,7 +170,7 @@ func three(v variant, hf crypto.Hash, pre *disco.Info, skip int) (res [3]string,
 			}
 		})
 		if p != "" {
-			return res, fmt.Sprintf("%s with %s panicked: %s", names[k], hf, p)
+			return res, fmt.Sprintf("%s with %s panicked: %s", names[k], hf, trimPanic(p))
 		}
 		res[k] = out
 	}
